@@ -58,6 +58,7 @@ func runC08(c *Ctx, r *Report) {
 	r.Rule("C08/operation-constructed", "every rpc is sent with operation options built by NewOperation (a zero-value struct has Timeout 0 = maximum: a call whose reply never comes would not return)", 4)
 	checkOperationConstructed(c, r, "C08/operation-constructed")
 	importFoundation(c, r, "C08", "read-loop")
+	importFoundation(c, r, "C08", "read-returns-dequeued")
 	importFoundation(c, r, "C08", "netconf-framing")
 	importFoundation(c, r, "C08", "netconf-version")
 	r.Rule("C08/id-allocation", "the message-id counter is written only by the constructor (101) and by buildPayload (copy, then +1); every RPC entry point builds exactly one message per call", 8)
